@@ -424,3 +424,15 @@ func (w *W) Item(input, aux string) {
 
 // Finish marks a hand-enumerated phase complete unless its budget expired.
 func (w *W) Finish() { w.cur.Complete = !w.expired }
+
+// Report records a violation found outside Case (phases that evaluate in their own goroutines).
+func (w *W) Report(input, aux, kind, detail string) {
+	w.curIn, w.curAux = input, aux
+	w.Fail(kind, detail)
+}
+
+// CountEvals adds evaluations performed outside Case.
+func (w *W) CountEvals(n int) { w.cur.Evals += int64(n) }
+
+// MarkIncomplete flags the current phase as not completely enumerated.
+func (w *W) MarkIncomplete() { w.cur.Complete = false }
